@@ -106,6 +106,21 @@ func seqCases(prop, tier string, seed uint64) []Case {
 	if prop == "C13" || prop == "C12" {
 		cases = append(cases, shapeCases(prop, tier, cfgs)...)
 	}
+	if prop == "C01" || prop == "C02" || prop == "C04" || prop == "C13" {
+		// quantity: thousands of entries written in one batch, removed again (as many tombstones and DELETE records), then ordinary calls
+		nb := 1300
+		if tier == "thorough" {
+			nb = 5000
+		}
+		ms := []Op{{K: "dir", A: "/bulk", Perm: 0o755}}
+		for i := 0; i < nb; i++ {
+			ms = append(ms, Op{K: "file", A: fmt.Sprintf("/bulk/e%05d", i), Perm: 0o644, Len: (i % 7) * 3, Dist: "text", DSeed: uint64(i)})
+		}
+		ops := []Op{{K: "create", A: "/old.txt", Len: 9, Dist: "text", DSeed: 1}, {K: "archive", Members: ms, DSeed: 9}, {K: "list", A: "/bulk", N: -1}, {K: "removeall", A: "/bulk"},
+			{K: "remove", A: "/old.txt"}, {K: "create", A: "/new.txt", Len: 5, Dist: "text", DSeed: 2}, {K: "create", A: "/newer.txt", Len: 700, Dist: "text", DSeed: 3}, {K: "chmod", A: "/new.txt", Perm: 0o600}, {K: "read", A: "/newer.txt"}}
+		pb, _ := json.Marshal(seqP{Cfg: Cfg{Level: "fastest", RS: 20, WC: "file"}, Ops: ops})
+		cases = append(cases, Case{ID: strings.ToLower(prop) + "-bulk", Seed: 5, Kind: "random", P: pb})
+	}
 	if prop == "C02" {
 		// scale: one file whose length needs more than 31 bits (create, sparse write, close, stat, positioned reads, rebuild)
 		pb, _ := json.Marshal(handP{Cfg: Cfg{Level: "fastest", RS: 20, WC: "file"}, Init: -1, Giant: int64(1)<<31 + 1025})
@@ -531,6 +546,17 @@ func (h *hist) c05Check(op Op, out Outcome, st *c05State) bool {
 		return false
 	}
 	defer func() { st.before = after }()
+	if h.rig.Intruded > 0 {
+		// another writer appended an end-of-archive marker while the call was in progress: those bytes belong to the tape too
+		where := len(st.before)
+		st.before = append(append([]byte(nil), st.before...), make([]byte, h.rig.Intruded)...)
+		h.rig.Intruded = 0
+		h.res.count("calls_with_a_second_writer", 1)
+		if len(after) < len(st.before) || !bytes.Equal(after[where:len(st.before)], st.before[where:]) {
+			h.violate("overwrote-other-writer", "bytes that another writer appended to the tape (at %d) while the call was in progress were overwritten", where)
+			return false
+		}
+	}
 	if !bytes.HasPrefix(after, st.before) {
 		h.violate("prefix", "tape is no longer an extension of its previous content (before %d bytes, after %d)", len(st.before), len(after))
 		return false
@@ -737,7 +763,10 @@ func genOptsFor(prop string, cfg Cfg, comps []string) GenOpts {
 		o.Late = true
 	case "C01":
 		o.Batched = true // symlinks: only in the witness case of the open finding (they vanish from listings after a rebuild)
-	case "C04", "C05":
+	case "C05":
+		o.Batched = true
+		o.Intruder = true
+	case "C04":
 		o.Batched = true
 	case "C07":
 		o.Batched, o.BiasMoves = true, true
